@@ -42,7 +42,7 @@ LineHeightA(lh, ch) == IF lh[1] = 0 THEN lh[2] ELSE (ch * lh[2]) \div 100
 AlignOK(align, x, xmin, xmax) ==
   CASE align = 0 -> xmin = x
     [] align = 2 -> xmax = x
-    [] OTHER     -> Abs(xmin + xmax - 2 * x) <= 1
+    [] OTHER     -> Abs((xmin - x) + (xmax - x)) <= 1      \* (differences first: positions may be near 2^31)
 \* the same for a box given by its first column x0 and its width w >= 1
 AlignBoxOK(align, x, x0, w) == AlignOK(align, x, x0, x0 + w - 1)
 
